@@ -25,3 +25,13 @@ contract(
     raises={"LiquidTypeError": None, "LiquidValueError": None},   # limit: / offset: from data, infinities included
     returns=Int,
 )
+
+contract(
+    "liquid2.builtin.expressions:_contains",
+    props=["C02", "C01"],
+    params={"token": Any_, "left": Union(Str, ListOf("any"), DictOf("str", "any"), Int, NoneT),
+            "right": Union(Str, Int, NoneT, ListOf("any"))},      # a list on the right is unhashable
+    post=["implies(isinstance(left, str) and isinstance(right, str), result == (right in left))",
+          "implies(isinstance(left, dict) and isinstance(right, list), result == False)"],
+    raises={"LiquidTypeError": "not isinstance(left, (str, list, dict))"},
+)
